@@ -1,5 +1,7 @@
 import NodisVerif.Model.Proto
 import NodisVerif.Proofs.ProtoReg
+import NodisVerif.Proofs.LinProtoCheck
+import NodisVerif.Proofs.LinExamples
 /-
   C05 — concurrent single-key commands are linearizable: no lost or torn updates.
 
@@ -224,5 +226,229 @@ example : ∃ s, Reachable s ∧ s.lookup "k" = some 10 ∧ s.lookup "z" = some 
 /-- a writer waiting for the readers is not granted the lock -/
 example : ((runAll {} (twoReaders ++ [.begin 4, .wait 4 "k" 10 .w])).bind (step · (.lock 4 "k" 10 .w))).isNone = true := by
   decide
+
+end NodisVerif.C05
+
+/-! ## 7. from lock intervals to linearizability
+
+  The generic part (Proofs/LinCore.lean, LinCorollaries.lean, LinSplit.lean; core Lean only). An abstract
+  object is a sequential specification `O.apply : State → Op → State × Ret` with read-only operations
+  (`O.readOnly o → (O.apply s o).1 = s`). An execution is a list of events `inv i o`, `acq i`, `eff i`,
+  `rel i`, `res i r` over operation ids; `Lin.WF O σ0 es` = the executable transition system `Lin.step`
+  accepts it from the shared state σ0: per operation  inv (acq rel)* acq eff rel (acq rel)* res  (the
+  plain order inv acq eff rel res, plus retries of the lock), a writer's `acq` needs the lock free, a
+  reader's needs it free of writers, `eff i` turns the shared state σ into `(apply σ o).1` and records
+  `(apply σ o).2`, `res i r` returns the recorded result.
+    `Lin.hist es`             the inv / res events of es
+    `Lin.Prec h i j`          `res i _` comes before `inv j _` in h
+    `Lin.IsLin O σ0 h lin`    lin : List (id × op × result) has no id twice, contains only invoked
+                              operations and every completed one with the result it returned, orders i
+                              before j whenever `Prec h i j`, and is a legal sequential execution of
+                              `apply` from σ0 with exactly these results (`Lin.Legal`)
+    `Lin.Linearizable O σ0 h` `∃ lin, IsLin O σ0 h lin`
+-/
+namespace NodisVerif.C05
+open NodisVerif.Proto
+open NodisVerif.Proofs.Proto
+open NodisVerif.Lin
+
+section Generic
+variable {State Op Ret : Type} [DecidableEq Ret]
+
+/-- THEOREM. The history of every well-formed execution — any number of operations, any interleaving —
+    is linearizable, and the order of the `eff` events is a linearization. -/
+theorem locked_bodies_linearizable (O : Obj State Op Ret) (σ0 : State) (es : List (Lin.Ev Op Ret))
+    (h : WF O σ0 es) : ∃ lin, IsLin O σ0 (hist es) lin ∧ ids lin = effOrder es :=
+  Lin.locked_bodies_linearizable O σ0 es h
+
+/-- … the sequential execution ends in the shared state the concurrent one ends in … -/
+theorem linearization_final_state {O : Obj State Op Ret} {σ0 : State} {es : List (Lin.Ev Op Ret)}
+    {c : Lin.Cfg State Op Ret} (h : Lin.run O true { σ := σ0 } es = some c) :
+    IsLin O σ0 (hist es) c.lin ∧ ids c.lin = effOrder es ∧ final O σ0 c.lin = c.σ :=
+  run_linearizable h
+
+/-- … and the linearization point `eff i` of a completed operation lies between `inv i` and `res i`. -/
+theorem linearization_point_between {O : Obj State Op Ret} {σ0 : State} {es : List (Lin.Ev Op Ret)}
+    {c : Lin.Cfg State Op Ret} (h : Lin.run O true { σ := σ0 } es = some c) {i : Nat} {r : Ret}
+    (hr : Lin.Ev.res i r ∈ es) : ∃ o, [Lin.Ev.inv i o, Lin.Ev.eff i, Lin.Ev.res i r].Sublist es :=
+  lin_point_between h hr
+
+/-- the lock discipline that `WF` checks, as a property of every prefix: two operations that are both
+    between `acq` and `rel` are both read-only -/
+theorem lock_intervals_disjoint {O : Obj State Op Ret} {σ0 : State} {es : List (Lin.Ev Op Ret)}
+    {c : Lin.Cfg State Op Ret} (h : Lin.run O true { σ := σ0 } es = some c) {i j : Nat} {si sj : OpSt Op Ret}
+    (h1 : c.ops i = some si) (h2 : c.ops j = some sj) (l1 : si.locked = true) (l2 : sj.locked = true)
+    (hne : i ≠ j) : O.readOnly si.op = true ∧ O.readOnly sj.op = true :=
+  intervals_disjoint h h1 h2 l1 l2 hne
+
+/-- a completed operation (a read in particular) returns what `apply` computes on the state after a
+    prefix of the writes in linearization order -/
+theorem readers_see_a_prefix_state {O : Obj State Op Ret} {σ0 : State} {es : List (Lin.Ev Op Ret)}
+    {c : Lin.Cfg State Op Ret} (h : Lin.run O true { σ := σ0 } es = some c) {i : Nat} {r : Ret}
+    (hr : Lin.Ev.res i r ∈ es) :
+    ∃ o p q, c.lin = p ++ (i, o, r) :: q ∧ writes O p <+: writes O c.lin ∧
+      r = (O.apply (final O σ0 (writes O p)) o).2 :=
+  Lin.readers_see_a_prefix_state h hr
+
+/-- What the lock buys: when the body is NOT one atomic event but reads the shared state at `rd i` and
+    writes `apply` of that snapshot back at a later `wr i` (both inside one `acq … rel` interval, events
+    of other operations in between), the history is still linearizable … -/
+theorem split_bodies_linearizable (O : Obj State Op Ret) (σ0 : State) (es : List (Split.Ev Op Ret))
+    (h : Split.WF O σ0 es) : Linearizable O σ0 (Split.hist es) :=
+  Split.split_bodies_linearizable O σ0 es h
+
+end Generic
+
+/-- … whereas without the lock checks two such increments both read 0 and both write 1: the history
+    `inv 1, inv 2, res 1 0, res 2 0` has no linearization (and the lock discipline rejects the execution) -/
+theorem lost_update_without_lock :
+    ¬ Split.WF counter 0 Examples.lostUpdate ∧
+    (Split.run counter false { core := { σ := 0 } } Examples.lostUpdate).map (fun c => c.core.σ) = some 1 ∧
+    ¬ Linearizable counter 0 (Split.hist Examples.lostUpdate) :=
+  ⟨Examples.lostUpdate_rejected, Examples.lostUpdate_runs_unlocked, Examples.lost_update_without_lock⟩
+
+/-- no lost update: if every invoked operation on the counter (`false` = increment, `true` = read) has
+    completed, the counter ends at its initial value plus the number of increments invoked … -/
+theorem no_lost_update {σ0 : Int} {es : List (Lin.Ev Bool Int)} {c : Lin.Cfg Int Bool Int}
+    (h : Lin.run counter true { σ := σ0 } es = some c)
+    (hall : ∀ i o, Lin.Ev.inv i o ∈ es → ∃ r, Lin.Ev.res i r ∈ es) :
+    c.σ = σ0 + (((invs es).filter fun p => !p.2).length : Int) :=
+  Lin.no_lost_update h hall
+
+/-- … so k increments and nothing else end at σ0 + k -/
+theorem no_lost_update_k {σ0 : Int} {es : List (Lin.Ev Bool Int)} {c : Lin.Cfg Int Bool Int}
+    (h : Lin.run counter true { σ := σ0 } es = some c)
+    (hall : ∀ i o, Lin.Ev.inv i o ∈ es → ∃ r, Lin.Ev.res i r ∈ es)
+    (hincr : ∀ i o, Lin.Ev.inv i o ∈ es → o = false) : c.σ = σ0 + ((invs es).length : Int) :=
+  Lin.no_lost_update_k h hall hincr
+
+/-- no double pop: two different completed pops on a list of distinct elements return different
+    elements (and elements of the list) -/
+theorem no_double_pop {α : Type} [DecidableEq α] {s0 : List α} (hs : s0.Nodup)
+    {es : List (Lin.Ev Unit (Option α))} {c : Lin.Cfg (List α) Unit (Option α)}
+    (h : Lin.run (popper α) true { σ := s0 } es = some c) {i j : Nat} {a b : α} (hne : i ≠ j)
+    (hi : Lin.Ev.res i (some a) ∈ es) (hj : Lin.Ev.res j (some b) ∈ es) : a ≠ b ∧ a ∈ s0 ∧ b ∈ s0 :=
+  ⟨Lin.no_double_pop hs h hne hi hj, pop_returns_element h hi, pop_returns_element h hj⟩
+
+/-- non-vacuity: two increments and a read on a counter at 10, all three overlapping, the reader
+    between the writers: well-formed; the linearization is 1, 3, 2 with results 10, 11, 11 -/
+example : WF counter 10 Examples.ex3 ∧
+    (Lin.run counter true { σ := 10 } Examples.ex3).map (fun c => (c.lin, c.σ)) =
+      some ([(1, false, 10), (3, true, 11), (2, false, 11)], 12) ∧
+    hist Examples.ex3 = [.inv 1 false, .inv 2 false, .inv 3 true, .res 1 10, .res 3 11, .res 2 11] :=
+  ⟨Examples.ex3_wf, Examples.ex3_lin, Examples.ex3_hist⟩
+
+example : Split.WF counter 10 Examples.exSplit := Examples.exSplit_wf
+
+/-! ## 8. the intervals of the protocol obey the lock discipline; single-key commands are linearizable
+
+    `HoldsCur s k t r m`    in s, t holds — validated, in mode m — the record r registered under k now
+    `Releases t k r e`      e is `unlock t r`, `unlink t k r` or `drop t k r`
+    `InInterval es k t m p` the state after the first p events lies in an interval of t on the current
+                            record of k: `HoldsCur` after some event a < p, no `Releases` since
+-/
+
+/-- the interval starts when `acquire` has validated the record (or claimed the missing key) … -/
+theorem interval_starts_at_validation {s s' : PState} {t : Tx} {k : Key} {r : Rec}
+    (hs : step s (.valid t k r true) = some s') : ∃ m, HoldsCur s' k t r m := holdsCur_of_valid hs
+
+theorem interval_starts_at_claim {s s' : PState} {t : Tx} {k : Key} {r : Rec} {m : Mode}
+    (hs : step s (.claim t k r m) = some s') : HoldsCur s' k t r m := holdsCur_of_claim hs
+
+/-- … lasts as long as `t` neither unlocks the record nor unregisters it itself, over any steps of
+    anybody, FLUSH excepted (section 3: nobody else can unregister it; C07.1: `t` keeps the lock) … -/
+theorem interval_lasts_until_release {s s' : PState} (hr : Reachable s) {es : List Ev} {k : Key} {t : Tx}
+    {r : Rec} {m : Mode} (hc : HoldsCur s k t r m) (hs : runAll s es = some s')
+    (hcl : ∀ e ∈ es, e ≠ .clear) (hrel : ∀ e ∈ es, ¬ Releases t k r e) : HoldsCur s' k t r m :=
+  holdsCur_run hr.inv hc hs hcl hrel
+
+/-- … in particular from the validation to the `commit` of that run of the transaction, unless the
+    command unlinks the record itself (DEL) … -/
+theorem interval_until_commit {es : List Ev} {s : PState} (hs : runAll {} es = some s) {t : Tx} {k : Key}
+    {r : Rec} {a c : Nat} {v : Ev} (hv : es[a]? = some v)
+    (hval : v = .valid t k r true ∨ ∃ m, v = .claim t k r m) (hc : es[c]? = some (.commit t))
+    (hnf : ∀ p, a < p → p < c → es[p]? ≠ some (.fin t))
+    (hnu : ∀ p, a < p → p < c → es[p]? ≠ some (.unlink t k r)) :
+    ∃ m, ∀ p, a < p → p ≤ c → InInterval es k t m p :=
+  Proofs.Proto.interval_until_commit hs hv hval hc hnf hnu
+
+/-- … and two transactions are inside such intervals for one key at the same time only as readers of
+    the same record (mutual exclusion + uniqueness of the registered record, sections 1, 4, 5). -/
+theorem key_intervals_well_formed_state {s : PState} (hr : Reachable s) {k : Key} {t u : Tx} {r r' : Rec}
+    {m m' : Mode} (h1 : HoldsCur s k t r m) (h2 : HoldsCur s k u r' m') (hne : t ≠ u) :
+    r = r' ∧ m = .r ∧ m' = .r :=
+  holdsCur_exclusive hr.inv h1 h2 hne
+
+/-- THEOREM. In a FLUSH-free trace of the protocol the intervals of two different transactions on the
+    current record of one key overlap (share a position) only if both are readers: the lock-discipline
+    hypothesis of the generic theorem holds for the commands on each key. -/
+theorem key_intervals_well_formed {es : List Ev} {s : PState} (hs : runAll {} es = some s)
+    (hcl : ∀ e ∈ es, e ≠ .clear) {k : Key} {t u : Tx} {m m' : Mode} {p : Nat} (hp : p ≤ es.length)
+    (h1 : InInterval es k t m p) (h2 : InInterval es k u m' p) (hne : t ≠ u) : m = .r ∧ m' = .r :=
+  key_intervals_disjoint hs hcl hp h1 h2 hne
+
+/-- THEOREM (single-key commands are linearizable). `ms` interleaves steps of the protocol (`inl`) with
+    the events of operations on key `k` (`inr`; the operation of transaction `t` has id `t`).
+    `LinProto.Placed O k {} {σ := σ0} ms` says:
+      (a) the protocol steps are a trace of the protocol from the empty state, without FLUSH;
+      (b) `acq t` comes at a moment when `HoldsCur k t` holds (i.e. after `acquire` has returned), in
+          write mode unless the operation is read-only;
+      (c) while the operation is between `acq t` and `rel t`, `t` takes no `Releases` step for that
+          record (by `interval_until_commit`: `rel t` at the latest at the commit, or before the
+          command's own `unlink`);
+      (d) apart from the lock checks the operations' events are accepted by `Lin.step`: `inv`, then the
+          body `eff` somewhere between `acq` and `rel`, then `res` with the result of the body.
+    (b)–(d) are THE assumption that is not in the protocol model: the effect of a command on the value
+    of its key happens between the return of `acquire` and the commit (tx.go: `exec` runs `fn(tx)` and
+    then the deferred `commit`), and its reply carries the result computed there.
+    Conclusion: all lock checks of the generic theorem pass (the operations' execution is `WF`), hence
+    the history of the operations on `k` is linearizable w.r.t. ANY sequential specification `O`. -/
+theorem single_key_commands_linearizable {State Op Ret : Type} [DecidableEq Ret] (O : Obj State Op Ret)
+    (σ0 : State) (k : Key) (ms : List (Proto.Ev ⊕ Lin.Ev Op Ret))
+    (h : LinProto.Placed O k {} { σ := σ0 } ms) :
+    WF O σ0 (LinProto.opEvents ms) ∧ Linearizable O σ0 (hist (LinProto.opEvents ms)) :=
+  LinProto.placed_linearizable O σ0 k ms h
+
+/-- (a) spelled out: the protocol part of such an interleaving is a FLUSH-free trace of the protocol -/
+theorem placed_is_protocol_trace {State Op Ret : Type} [DecidableEq Ret] {O : Obj State Op Ret}
+    {σ0 : State} {k : Key} {ms : List (Proto.Ev ⊕ Lin.Ev Op Ret)}
+    (h : LinProto.Placed O k {} { σ := σ0 } ms) :
+    (∃ s, runAll {} (LinProto.protoEvents ms) = some s) ∧ ∀ e ∈ LinProto.protoEvents ms, e ≠ .clear :=
+  LinProto.placed_proto_runs h
+
+/-- the same for bodies in two steps (`rd t` … `wr t` between `acq t` and `rel t`): here the lock checks
+    discharged by the protocol are what makes the history linearizable (`lost_update_without_lock`) -/
+theorem single_key_commands_linearizable_split {State Op Ret : Type} [DecidableEq Ret]
+    (O : Obj State Op Ret) (σ0 : State) (k : Key) (ms : List (Proto.Ev ⊕ Split.Ev Op Ret))
+    (h : LinProto.PlacedSplit O k {} { core := { σ := σ0 } } ms) :
+    Split.WF O σ0 (LinProto.opEventsSplit ms) ∧ Linearizable O σ0 (Split.hist (LinProto.opEventsSplit ms)) :=
+  LinProto.placedSplit_linearizable O σ0 k ms h
+
+/-- non-vacuity: key "k" holds a counter; commands 1, 2 (INCR) and 3 (GET) overlap, 2 and 3 block on the
+    record lock while 1 works, the reader is served before writer 2 (`LinProto.exTrace`, 45 events) -/
+example : LinProto.Placed counter "k" {} { σ := 0 } LinProto.exTrace := LinProto.exTrace_placed
+
+example : hist (LinProto.opEvents LinProto.exTrace) =
+    [.inv 1 false, .inv 2 false, .inv 3 true, .res 1 0, .res 3 1, .res 2 1] := by decide
+
+example : Linearizable counter 0 (hist (LinProto.opEvents LinProto.exTrace)) :=
+  (single_key_commands_linearizable counter 0 "k" _ LinProto.exTrace_placed).2
+
+example : LinProto.PlacedSplit counter "k" {} { core := { σ := 0 } } LinProto.exTraceSplit :=
+  LinProto.exTraceSplit_placed
+
+/-- the hypotheses of `interval_until_commit` are satisfiable: in `setupK` transaction 2 claims "k" at
+    position 1 and commits at position 3 -/
+example : ∃ m, ∀ p, 1 < p → p ≤ 3 → InInterval setupK "k" 2 m p := by
+  cases h : runAll {} setupK with
+  | none => exact absurd h (by decide)
+  | some s =>
+    refine interval_until_commit (a := 1) (c := 3) (r := 10) h (by decide) (Or.inr ⟨.w, rfl⟩) (by decide) ?_ ?_
+    · intro p h1 h2
+      have : p = 2 := by omega
+      subst this; decide
+    · intro p h1 h2
+      have : p = 2 := by omega
+      subst this; decide
 
 end NodisVerif.C05
